@@ -245,9 +245,6 @@ Proof.
   unfold nthz, zlen. rewrite Nat2Z.id. split; [lia|exact E].
 Qed.
 
-Lemma nthz_zeros : forall n k, nthz k (zeros n) 0 = 0.
-Proof. intros n k. unfold nthz, zeros. apply nth_repeat. Qed.
-
 (* the facts of a well-formed matrix *)
 Lemma wf_tiled_facts : forall c R C i, well_formed_tiled c R C i = true ->
   1 <= rows c /\ 1 <= cols c /\ 1 <= R /\ 1 <= C /\ n_planes i = 1 /\
@@ -345,3 +342,173 @@ Proof.
            nia.
       * unfold zeros in Hv. apply repeat_spec in Hv. subst v. reflexivity.
 Qed.
+
+(* the stored value the specification assigns to a zero pixel is zero *)
+Lemma zero_pixel_label : forall c (ps : list (list Z)) j p k,
+  nthz p (nthz j ps []) 0 = 0 -> nthz k (segs c) 0 <> 0 -> (dt c = DFloat -> 0 < den c) ->
+  expected_pixel c (Label ps) j p k = 0.
+Proof.
+  intros c ps j p k Hv Hs Hd. unfold expected_pixel. rewrite Hv.
+  destruct (dt c) eqn:Ed; destruct (ty c); cbn [Z.mul];
+    try rewrite Z.div_0_l by (specialize (Hd eq_refl); lia);
+    try (replace (0 =? nthz k (segs c) 0) with false by lia; reflexivity);
+    apply rhe_zero; now apply Hd.
+Qed.
+
+Lemma zero_pixel_stack : forall c (ps : list (list (list Z))) j p k,
+  nthz k (nthz p (nthz j ps []) []) 0 = 0 -> (dt c = DFloat -> 0 < den c) ->
+  expected_pixel c (Stack ps) j p k = 0.
+Proof.
+  intros c ps j p k Hv Hd. unfold expected_pixel. rewrite Hv.
+  destruct (dt c) eqn:Ed; destruct (ty c); cbn [Z.mul];
+    try rewrite Z.div_0_l by (specialize (Hd eq_refl); lia);
+    try reflexivity; apply rhe_zero; now apply Hd.
+Qed.
+
+(* expected_pixel looks at the configuration only through type, dtype, den,
+   max_fractional_value and the segment numbers *)
+Lemma expected_pixel_cfg : forall c c' i j p k,
+  ty c = ty c' -> dt c = dt c' -> den c = den c' -> maxfrac c = maxfrac c' -> segs c = segs c' ->
+  expected_pixel c i j p k = expected_pixel c' i j p k.
+Proof. intros c c' i j p k E1 E2 E3 E4 E5. unfold expected_pixel. now rewrite E1, E2, E3, E4, E5. Qed.
+
+(* THE SPECIFICATION OF THE CUT: what the frame loop is given for tile t is, value
+   for value, what the matrix holds under that tile (zero beyond the edge) *)
+Lemma tiled_expected_pixel : forall c R C i ti,
+  well_formed_tiled c R C i = true -> tile_input c R C i = Ok ti ->
+  (forall s, In s (segs c) -> 1 <= s) -> (dt c = DFloat -> 0 < den c) ->
+  forall t p k, 0 <= t < n_tiles R C (rows c) (cols c) -> 0 <= p < rows c * cols c ->
+    0 <= k < zlen (segs c) ->
+    expected_pixel (tiled_cfg c R C) ti t p k = expected_tile_pixel c R C i t p k.
+Proof.
+  intros c R C i ti H Hti Hsg Hden t p k Ht Hp Hk.
+  destruct (wf_tiled_facts c R C i H) as (Hth & Htw & HR & HC & Hn & Hw & Hi).
+  assert (Hs : nthz k (segs c) 0 <> 0) by (specialize (Hsg _ (nthz_in (segs c) k 0 Hk)); lia).
+  unfold expected_tile_pixel.
+  replace ((0 <=? t) && (t <? n_tiles R C (rows c) (cols c))) with true by lia. cbn [andb].
+  rewrite (expected_pixel_cfg (tiled_cfg c R C) c) by reflexivity.
+  rewrite (expected_pixel_cfg (tpm_cfg c R C) c) by reflexivity.
+  destruct i as [ps|ps]; destruct Hi as (Eps & Hm); unfold tile_input in Hti.
+  - destruct (tile_planes_spec 0 0 R C (rows c) (cols c) (nthz 0 ps []) Hm HR HC Hth Htw)
+      as (tiles & Htl & Hlen & Hpix).
+    rewrite Htl in Hti. cbn [bind] in Hti. injection Hti as <-.
+    destruct (Hpix t Ht) as (_ & Hpx). specialize (Hpx p Hp). cbv zeta in Hpx.
+    destruct ((t / n_tiles_along C (cols c) * rows c + p / cols c <? R) &&
+              (t mod n_tiles_along C (cols c) * cols c + p mod cols c <? C)) eqn:Eb.
+    + unfold expected_pixel. now rewrite Hpx.
+    + now apply zero_pixel_label.
+  - destruct (tile_planes_spec (zeros (zlen (segs c))) [] R C (rows c) (cols c) (nthz 0 ps []) Hm HR HC Hth Htw)
+      as (tiles & Htl & Hlen & Hpix).
+    rewrite Htl in Hti. cbn [bind] in Hti. injection Hti as <-.
+    destruct (Hpix t Ht) as (_ & Hpx). specialize (Hpx p Hp). cbv zeta in Hpx.
+    destruct ((t / n_tiles_along C (cols c) * rows c + p / cols c <? R) &&
+              (t mod n_tiles_along C (cols c) * cols c + p mod cols c <? C)) eqn:Eb.
+    + unfold expected_pixel. now rewrite Hpx.
+    + apply zero_pixel_stack; [|exact Hden]. rewrite Hpx. apply nthz_zeros.
+Qed.
+
+(* ------------------------------------------------------------------ *)
+(* the round trip of a total pixel matrix                               *)
+(* ------------------------------------------------------------------ *)
+Lemma construct_tiled_inv : forall c R C full i st, construct_tiled c R C full i = Ok st ->
+  n_planes i = 1 /\ R = srows c /\ C = scols c /\
+  exists ti, tile_input c R C i = Ok ti /\
+             construct (tiled_cfg c R C) ti (zrange (nsrc (tiled_cfg c R C))) = Ok st /\
+             (full = true -> omit_on (tiled_cfg c R C) ti = false).
+Proof.
+  intros c R C full i st H. unfold construct_tiled in H.
+  destruct (n_planes i =? 1) eqn:E1; cbn [negb] in H; [|discriminate].
+  destruct (tile_input c R C i) as [ti|e] eqn:E2; cbn [bind] in H; [|discriminate].
+  destruct (construct (tiled_cfg c R C) ti (zrange (nsrc (tiled_cfg c R C)))) as [st0|e] eqn:E3;
+    cbn [bind] in H; [|discriminate].
+  destruct ((R =? srows c) && (C =? scols c)) eqn:E4; cbn [negb] in H; [|discriminate].
+  destruct (full && omit_on (tiled_cfg c R C) ti) eqn:E5; [discriminate|]. injection H as <-.
+  split; [lia|]. split; [lia|]. split; [lia|]. exists ti. split; [reflexivity|]. split; [exact E3|].
+  intros ->. exact E5.
+Qed.
+
+Lemma expected_req_tiled : forall c R C i ti,
+  well_formed_tiled c R C i = true -> tile_input c R C i = Ok ti ->
+  (forall s, In s (segs c) -> 1 <= s) -> (dt c = DFloat -> 0 < den c) ->
+  forall req, expected_req (tiled_cfg c R C) ti true req = expected_tiled_req c R C i req.
+Proof.
+  intros c R C i ti H Hti Hsg Hden req. unfold expected_req, expected_tiled_req.
+  apply map_ext. intros f. unfold src_index, expected_plane, expected_tile_plane, npix.
+  cbn [tiled_cfg rows cols segs]. apply map_ext_in. intros p Hp. apply in_zrange in Hp.
+  apply map_ext_in. intros k Hk. apply in_zrange in Hk.
+  unfold in_src. change (nsrc (tiled_cfg c R C)) with (n_tiles R C (rows c) (cols c)).
+  destruct ((0 <=? f - 1) && (f - 1 <? n_tiles R C (rows c) (cols c))) eqn:Ein.
+  - apply (tiled_expected_pixel c R C i ti); auto. lia.
+  - unfold expected_tile_pixel. now rewrite Ein.
+Qed.
+
+(* THE PROPERTY for a mask handed over as ONE total pixel matrix, no hypothesis on
+   its content: whatever well-formed matrix the constructor accepts (any tile size,
+   the matrix a whole number of tiles or not, TILED_SPARSE or TILED_FULL) reads
+   back, for every list of source frame numbers passing the guards, from every
+   object and cache state, as the part of the matrix under each requested frame
+   - zero beyond the bottom / right edge, zero planes for frames that are not there *)
+Theorem tiled_no_silent_corruption : forall c R C full i st,
+  well_formed_tiled c R C i = true -> construct_tiled c R C full i = Ok st ->
+  forall lazy warm req am,
+    read_guard st req true am = Ok tt ->
+    read_g (frame_getter lazy warm st) st req true am = Ok (expected_tiled_req c R C i req).
+Proof.
+  intros c R C full i st H Hc lazy warm req am Hg.
+  destruct (construct_tiled_inv c R C full i st Hc) as (_ & _ & _ & ti & Hti & Hcon & _).
+  destruct (tile_input_ok c R C i H) as (ti' & Hti' & Hwf). rewrite Hti in Hti'. injection Hti' as <-.
+  pose proof (construct_ok_valid _ _ _ _ Hcon Hwf) as Hv.
+  destruct (valid_basic _ _ Hv) as (Hsn & _). cbn [tiled_cfg ty segs] in Hsn.
+  destruct (segs_facts c Hsn) as (_ & Hsg & _).
+  assert (Hden : dt c = DFloat -> 0 < den c).
+  { intros Ed. unfold well_formed in Hwf. cbn [tiled_cfg dt den] in Hwf. rewrite Ed in Hwf. split_andb. lia. }
+  rewrite <- (expected_req_tiled c R C i ti H Hti Hsg Hden req).
+  apply (no_silent_corruption (tiled_cfg c R C) ti (zrange (nsrc (tiled_cfg c R C))) st); auto.
+Qed.
+
+(* in particular: all source frames in order, eagerly and lazily *)
+Theorem tiled_roundtrip_by_frame : forall c R C full i st,
+  well_formed_tiled c R C i = true -> construct_tiled c R C full i = Ok st ->
+  forall lazy, read_by_frame lazy st (one_to (n_tiles R C (rows c) (cols c))) true
+               = Ok (expected_tiled_req c R C i (one_to (n_tiles R C (rows c) (cols c)))).
+Proof.
+  intros c R C full i st H Hc lazy.
+  destruct (construct_tiled_inv c R C full i st Hc) as (_ & _ & _ & ti & Hti & Hcon & _).
+  destruct (tile_input_ok c R C i H) as (ti' & Hti' & Hwf). rewrite Hti in Hti'. injection Hti' as <-.
+  pose proof (construct_ok_valid _ _ _ _ Hcon Hwf) as Hv.
+  destruct (valid_basic _ _ Hv) as (Hsn & _ & _ & Hnp & _). cbn [tiled_cfg ty segs] in Hsn.
+  destruct (segs_facts c Hsn) as (_ & Hsg & _).
+  assert (Hden : dt c = DFloat -> 0 < den c).
+  { intros Ed. unfold well_formed in Hwf. cbn [tiled_cfg dt den] in Hwf. rewrite Ed in Hwf. split_andb. lia. }
+  pose proof (roundtrip_by_frame (tiled_cfg c R C) ti _ st Hv (Permutation_refl _) Hcon lazy) as Hr.
+  change (nsrc (tiled_cfg c R C)) with (n_tiles R C (rows c) (cols c)) in Hr, Hnp.
+  rewrite Hr. f_equal. unfold expected, expected_tiled_req, one_to. rewrite Hnp, map_map.
+  apply map_ext_in. intros j Hj. apply in_zrange in Hj.
+  replace (j + 1 - 1) with j by ring. unfold expected_tile_plane, npix.
+  change (rows (tiled_cfg c R C)) with (rows c). change (cols (tiled_cfg c R C)) with (cols c).
+  change (segs (tiled_cfg c R C)) with (segs c).
+  apply map_ext_in. intros p Hp. apply in_zrange in Hp.
+  apply map_ext_in. intros k Hk. apply in_zrange in Hk.
+  now apply (tiled_expected_pixel c R C i ti).
+Qed.
+
+(* non-vacuity: a 3 x 5 label map in tiles of 2 x 3 (2 x 2 tiles, the last tile
+   row and the last tile column only partly covered): the tiles, with the zeros
+   BELOW / RIGHT of the data; the matrix is well-formed and valid, the constructor
+   accepts it, stores every tile and the by-frame read returns the tiles *)
+Lemma nonvacuous_tiled :
+  let c := Cfg LABELMAP DInt 1 1 false [1; 2] 2 3 3 5 4 true in
+  let m := [1;1;0;2;2;  0;1;0;0;2;  2;0;0;1;1] in
+  tile_planes 0 3 5 2 3 m = Ok [[1;1;0; 0;1;0]; [2;2;0; 0;2;0]; [2;0;0; 0;0;0]; [1;1;0; 0;0;0]] /\
+  get_tile_array 0 3 5 m 3 4 2 3 = Ok [1;1;0; 0;0;0] /\
+  get_tile_array 0 3 5 m 4 1 2 3 = Err "ValueError"%string /\
+  well_formed_tiled c 3 5 (Label [m]) = true /\ valid_tiled c 3 5 (Label [m]) = true /\
+  tiled_spec_holds c 3 5 false (Label [m]) = true /\
+  match construct_tiled c 3 5 false (Label [m]) with
+  | Ok st => s_meta st = [(0, 0); (0, 1); (0, 2); (0, 3)] /\
+             read_by_frame true st [4; 1] false
+               = Ok [[[1;0];[1;0];[0;0]; [0;0];[0;0];[0;0]]; [[1;0];[1;0];[0;0]; [0;0];[1;0];[0;0]]]
+  | Err _ => False
+  end /\
+  construct_tiled c 3 5 true (Label [m]) <> construct_tiled c 3 4 true (Label [m]).
+Proof. vm_compute. repeat split; discriminate. Qed.
